@@ -487,6 +487,9 @@ def main(argv):
                        'valuations of the initial symbols; the alias logic of eval_ExprMem/get_mem_overlapping is not proved inductively (it decides aliasing through expr_simp)')
     run.samples = [str(H[0]), str(H[len(H) // 2]), ' '.join(Q[-1]), str(R[0])]
     run.trust('z3; liftvc/den.py'); run.assume('stores use fresh symbolic values; addresses are base+constant')
+    # SMT-A: the gap finder of overlapping reads, verified from its AST for all bounds
+    from checks import C07smt
+    C07smt.ob_smt(run)
     return run.finish()
 
 if __name__ == '__main__':
